@@ -278,9 +278,13 @@ Overrides(p, pf) == IF IsCls(p)                                                 
 RECURSIVE OvSubs(_, _, _)      \* util.py:46 overriding_subclasses
 OvSubs(c, nm, first) == IF ~first /\ nm \in Names(Contents(c)) THEN {c}
                         ELSE UNION {OvSubs(s, nm, FALSE) : s \in {s \in Objs[c].subclasses : s \in Ids /\ Vis(s)}}
-OverriddenIn(p, pf) == IF IsCls(p)
-                       THEN {L(pf, Url(s), "overriddenIn") : s \in {s \in UNION {OvSubs(p, Objs[x].name, TRUE) : x \in Methods(p) \cup {p}} : Vis(s)}}
-                       ELSE {}
+\* :531 the classes the "overridden in A, B" notes of page p name (assembleList drops the hidden ones, :413)
+OverriddenInNoted(p) == IF IsCls(p)
+                        THEN {s \in UNION {OvSubs(p, Objs[x].name, TRUE) : x \in Methods(p) \cup {p}} : Vis(s)}
+                        ELSE {}
+OverriddenIn(p, pf) == {L(pf, Url(s), "overriddenIn") : s \in OverriddenInNoted(p)}
+\* :465 the classes the "Known subclasses: A, B" paragraph names (same filter)
+SubclassesNoted(p) == IF IsCls(p) THEN {s \in Objs[p].subclasses : s \in Ids /\ Vis(s)} ELSE {}
 HeaderLink(p, pf) == {L(pf, [file |-> pf, frag |-> Objs[c].name], "headerLink") : c \in Methods(p)}   \* attributechild.py:47
 InHierarchy(p, pf) == IF IsCls(p) THEN {L(pf, [file |-> "classIndex", frag |-> p], "inhierarchy")} ELSE {}   \* :479
 \* epydoc2stan.py:783 format_docstring: the stan is made with the linker of the docstring's SOURCE object, whose
@@ -330,6 +334,8 @@ ObjPageLinks(p) ==
 ObjPageEntries(p) ==
   LET pf == Written(p) IN
   {E(pf, "overridesNote", Url(c), FALSE) : c \in OverridesNoted(p)} \cup
+  {E(pf, "overriddenInNote", Url(s), FALSE) : s \in OverriddenInNoted(p)} \cup     \* a class named by a note, linked or not
+  {E(pf, "subclassesNote", Url(s), FALSE) : s \in SubclassesNoted(p)} \cup
   {E(pf, "table", PL(c, p), MarkedPrivate(c)) : c \in VisContents(p) \cup (IF IsCls(p) THEN Inherited(p) ELSE {})}   \* table.py:30
   \cup {E(pf, "detail", [file |-> pf, frag |-> Objs[c].name], MarkedPrivate(c)) : c \in Methods(p)}                  \* attributechild.py:33
   \cup {E(pf, "sidebarTitle", Url(s), FALSE) : s \in SideSections(p)}     \* the section title names s, linked or not
@@ -490,7 +496,8 @@ KF_SupersededListed(O, l) == l.prod \in AllObjectsProds /\ IsSupersededUrl(O, l.
 \* superseded ancestor never enters classIndex.html, so its "View In Hierarchy" anchor is missing
 \* (only the links that FOLLOW FROM the class hierarchy: a docstring / annotation reference that lands on a superseded
 \* object - names are never resolved to one - is not part of this finding)
-HierarchyProds == {"classSignature", "baseName", "baseTable", "sidebarItem", "subclasses", "overrides", "overridesNote", "overriddenIn"}
+HierarchyProds == {"classSignature", "baseName", "baseTable", "sidebarItem", "subclasses", "overrides", "overridesNote", "overriddenIn",
+                   "overriddenInNote", "subclassesNote"}
 KF_SupersededNotRendered(O, l) == \/ (l.prod \in HierarchyProds /\ IsSupersededUrl(O, l.file, l.frag))
                                   \/ (l.prod = "inhierarchy" /\ l.file = "classIndex" /\ l.frag \in DOMAIN O
                                       /\ \E b \in O[l.frag].mro : b \in Superseded(O))
